@@ -1,9 +1,11 @@
 package kit
 
 import (
+	"bytes"
 	"fmt"
 	"strings"
 
+	"go.etcd.io/bbolt"
 	"pgregory.net/rapid"
 )
 
@@ -36,10 +38,20 @@ func RunHistory(h History, afterTx func(w *World, m *Model, i int, tx TxSpec, ou
 	if err != nil {
 		return st, fmt.Errorf("building stores: %v", err)
 	}
-	defer w.Close()
+	defer func() { w.Close() }()
 	m := NewModel(h.Cfg)
 	sawReject := false
 	for i, tx := range h.Txs {
+		if tx.FreshInstance {
+			w2, err := MoveToFreshInstance(w)
+			if err != nil {
+				return st, fmt.Errorf("before transaction %d: %v\nhistory:\n%s", i, err, h)
+			}
+			w = w2
+			if err := w.CheckAll(m); err != nil {
+				return st, fmt.Errorf("before transaction %d, after the data moved into a fresh instance by snapshot restore: %v\nhistory:\n%s", i, err, h)
+			}
+		}
 		out := RunTx(w, m, tx)
 		st.SkippedOps += out.Skipped
 		if out.Violation != nil {
@@ -67,6 +79,33 @@ func RunHistory(h History, afterTx func(w *World, m *Model, i int, tx TxSpec, ou
 		}
 	}
 	return st, nil
+}
+
+// MoveToFreshInstance streams the database of w out, starts a second instance of the same configuration on an empty
+// database (stores built and initialised there), restores the stream into it and closes w.
+func MoveToFreshInstance(w *World) (*World, error) {
+	var buf bytes.Buffer
+	if err := w.Z.Db.View(func(tx *bbolt.Tx) error {
+		_, err := tx.WriteTo(&buf)
+		return err
+	}); err != nil {
+		return nil, fmt.Errorf("streaming the database out: %v", err)
+	}
+	w2, err := NewWorld(w.Cfg)
+	if err != nil {
+		return nil, fmt.Errorf("building stores of the second instance: %v", err)
+	}
+	w2.MigSeq = w.MigSeq
+	if p := func() (p interface{}) {
+		defer func() { p = recover() }()
+		w2.Z.Db.RestoreSnapshot(buf.Bytes())
+		return nil
+	}(); p != nil {
+		w2.Close()
+		return nil, fmt.Errorf("RestoreSnapshot into the second instance panicked: %v", p)
+	}
+	w.Close()
+	return w2, nil
 }
 
 // ---------------------------------------------------------------------------------------------
